@@ -101,16 +101,26 @@ func cone(w *World, id string) []*FuncInfo {
 	seen := map[*FuncInfo]bool{}
 	var out []*FuncInfo
 	var add func(fi *FuncInfo)
+	shallowOnly := map[*FuncInfo]bool{}
 	add = func(fi *FuncInfo) {
-		if seen[fi] {
+		if seen[fi] && !shallowOnly[fi] {
 			return
 		}
-		seen[fi] = true
-		if fi.Contract != nil && !fi.Contract.Trusted && !inlinable(fi) {
-			out = append(out, fi)
+		if seen[fi] && shallowOnly[fi] {
+			// reached again through a full edge: expand now
+			delete(shallowOnly, fi)
+		} else {
+			seen[fi] = true
+			if fi.Contract != nil && !fi.Contract.Trusted && !inlinable(fi) {
+				out = append(out, fi)
+			}
 		}
 		if fi.Contract == nil && !inlinable(fi) {
 			return // uncontracted callees are havoc at the call site; their bodies are not part of this proof
+		}
+		if fi.Contract != nil && contains(fi.Contract.ShallowProps, id) && !fullTag(fi, id) {
+			shallowOnly[fi] = true
+			return
 		}
 		for _, c := range w.callees[fi] {
 			// a tool's main is in the cone for what main itself does (dispatch, order, output); the library functions it
@@ -144,6 +154,23 @@ func cone(w *World, id string) []*FuncInfo {
 	}
 	sort.Slice(out, func(i, j int) bool { return out[i].Key < out[j].Key })
 	return out
+}
+
+// fullTag: the function carries the property through an ensures tag (not only through a shallow property line).
+func fullTag(fi *FuncInfo, id string) bool {
+	for _, cl := range fi.Contract.Ensures {
+		for _, t := range cl.Tags {
+			if t == id {
+				return true
+			}
+		}
+	}
+	for _, p := range fi.Contract.Props {
+		if p == id && !contains(fi.Contract.ShallowProps, id) {
+			return true
+		}
+	}
+	return false
 }
 
 func rangesOverBuiltinMap(fi *FuncInfo) bool {
